@@ -50,13 +50,20 @@ Section WithCtx.
     - rewrite !ws_write_codec_pos. destruct H as [_ ->]. reflexivity.
   Qed.
 
+  Lemma st_eq_dir s1 s2 z : st_eq s1 s2 -> st_eq (ws_write_dir a1 s1 z) (ws_write_dir a2 s2 z).
+  Proof.
+    intros H. split.
+    - rewrite !ws_write_dir_img. apply (st_eq_write _ _ z H).
+    - rewrite !ws_write_dir_pos. destruct H as [_ ->]. reflexivity.
+  Qed.
+
   Lemma write_dir_eq es s1 s2 : st_eq s1 s2 -> res_eq (write_dir cx a1 c es s1) (write_dir cx a2 c es s2).
   Proof.
     intros H. unfold write_dir. rewrite (Hcomp []).
     destruct (compress cx a2 c []) as [x| |]; cbn [bind res_eq]; try reflexivity.
     destruct (encode_dir_plain es) as [plain| |]; cbn [bind res_eq]; try reflexivity.
     rewrite (Hcomp plain). destruct (compress cx a2 c plain) as [z| |]; cbn [bind res_eq]; try reflexivity.
-    split; [now apply st_eq_codec|reflexivity].
+    split; [now apply st_eq_dir|reflexivity].
   Qed.
 
   Lemma leaf_loop_eq es start : forall fuel ls s1 s2, st_eq s1 s2 ->
